@@ -31,7 +31,23 @@ def make(rnd, classes, kind):
         return classes["nested"](name=rnd.choice(["n", "ñ"]), inner=flat())
     if kind == "raw":
         return classes["raw"](x=value(rnd), inner=flat())
+    if kind == "ice":
+        return classes["ice"](a=value(rnd), b=rnd.choice([0, 3]), d=[value(rnd, 1) for _ in range(rnd.randint(0, 2))], e={"k": value(rnd, 1)}, inner=flat())
     return classes["deep"](k=rnd.choice([0.0, 1.5]), mid=classes["nested"](name="m", inner=flat()), flat=flat())
+
+
+def mutate_in_place(rnd, obj, kind):
+    """change the object WITHOUT rebinding a field of the top object (works for frozen ones too); returns what was done"""
+    target = obj if kind in ("flat", "ice") else (obj.inner if kind in ("nested", "raw") else obj.flat)
+    how = rnd.choice(["append", "setkey", "nested-field"] if kind != "flat" else ["append", "setkey"])
+    if how == "append":
+        target.d.append(rnd.choice(["late", 9, None]))
+    elif how == "setkey":
+        target.e["late"] = rnd.choice([1, "x"])
+    else:
+        inner = obj.inner if kind in ("nested", "raw", "ice") else obj.flat
+        inner.b = inner.b + 1
+    return how
 
 
 def run(tier="quick", seed=0):
@@ -49,7 +65,7 @@ def run(tier="quick", seed=0):
     for it in range(N):
         flavour = rnd.choice(["plain", "future"])
         classes = (c28_plain if flavour == "plain" else c28_future).CLASSES
-        kind = rnd.choice(["flat", "nested", "deep", "raw"])
+        kind = rnd.choice(["flat", "nested", "deep", "raw", "ice"])
         obj = make(rnd, classes, kind)
         if it == N // 2:
             # a malformed message in between must not change later conversions (state surviving between calls)
@@ -75,6 +91,26 @@ def run(tier="quick", seed=0):
             if type(back) is not type(obj) or back != obj:
                 cls = "future-annotations-nested" if flavour == "future" and kind != "flat" else ""
                 v("C28/roundtrip-not-equal", dict(inp, codec=codec, witness_class=cls), repr(back)[:200], repr(obj)[:200])
+        # history: the object was used (serialised above); now it changes IN PLACE and must still round-trip as it is now
+        # (a conversion may not answer from anything it remembered about the object)
+        if rnd.random() < 0.5:
+            try:
+                list(obj._asdict().items())
+                how = mutate_in_place(rnd, obj, kind)
+            except Exception as ex:   # noqa
+                how = None
+            if how:
+                for codec in ("json", "cbor", "mgpk"):
+                    try:
+                        back = getattr(type(obj), "_from" + codec)(getattr(obj, "_as" + codec)())
+                    except Exception as ex:   # noqa
+                        v("C28/roundtrip-raised", dict(inp, codec=codec, after=how, witness_class=type(ex).__name__), repr(ex)[:100])
+                        continue
+                    evals += 1
+                    if type(back) is not type(obj) or back != obj:
+                        cls = "future-annotations-nested" if flavour == "future" and kind != "flat" else ""
+                        v("C28/roundtrip-after-in-place-change-not-equal", dict(inp, codec=codec, after=how, witness_class=cls), repr(back)[:200], repr(obj)[:200])
     return dict(evaluations=evals, distinct_nontrivial=len(distinct), samples=samples, violations=viol,
                 rule="random registered data objects (flat / nested / two levels / RawDom) x {json, cbor, msgpack} x {module with, without `from __future__ import annotations`}; "
-                     "values: None, bool, small/large ints, floats, str incl. non-ASCII, lists, str-keyed dicts; malformed messages injected mid-run")
+                     "values: None, bool, small/large ints, floats, str incl. non-ASCII, lists, str-keyed dicts; malformed messages injected mid-run; frozen (Ice) objects; "
+                     "half of the objects are changed in place after their first use and converted again")
